@@ -277,7 +277,7 @@ func opClientListOffsets(seed int64, n int) {
 				off += int64(1 + r.Intn(10))
 			}
 			if r.Intn(8) == 0 {
-				part.ListErr = int16([]int{1, 6, 9, 43}[r.Intn(4)])
+				part.ListErr = int16([]int{1, 6, 9, 43, -1}[r.Intn(5)])
 			}
 			t.Parts[p] = part
 		}
